@@ -34,6 +34,16 @@ def impl_digest(case):
             got = ["ok", TI.compute_checksum(path, case["alg"])]
         except Exception as e:
             got = ["err", type(e).__name__]
+        # the same file reached through a symbolic link (images/latest.iso -> boot.iso): the digest is that of the content
+        link = os.path.join(work, "latest-link")
+        os.symlink("blob", link)
+        try:
+            got_link = ["ok", TI.compute_checksum(link, case["alg"])]
+        except Exception as e:
+            got_link = ["err", type(e).__name__]
+        os.unlink(link)
+        if got_link != got:
+            got = ["through-a-symlink", got_link, got]
         # through Checksums.add with a redundant relative path
         cs = TI.TreeInfo().checksums
         try:
